@@ -58,7 +58,7 @@ def opOfJson (S : Sig) (conv : Json → Except String S.Val) (ntasks : Nat) (j :
   | some (.str "clear") => return .clear
   | _ => throw "bad-op"
 
-def obsToJson (defs : Array Def) : Obs (sig defs) → Json
+def obsToJson (defs : Array Def) (w : Option Nat) : Obs (sig defs w) → Json
   | .view v => Json.mkObj [("view", v)]
   | .out o => Json.mkObj [("out", o)]
   | .error e => Json.mkObj [("error", Json.str e)]
@@ -71,10 +71,28 @@ def handle (j : Json) : Json :=
     let defs ← (List.range defsJ.size).mapM fun d => defOfJson d defsJ[d]!
     let defs := defs.toArray
     let tasks ← (← getArr j "tasks").toList.mapM (taskOfJson defs.size)
-    let ops ← (← getArr j "ops").toList.mapM (opOfJson (sig defs) cvalOfJson tasks.length)
-    let m := runHist (sig defs) (init (sig defs) tasks) ops
-    let s := specHist (sig defs) tasks ops
-    return Json.mkObj [("model", Json.arr (m.map (obsToJson defs)).toArray), ("spec", Json.arr (s.map (obsToJson defs)).toArray)]
+    -- environment parameter measured by the harness: number of superset candidates with a correct hash (null = no limit)
+    let window : Option Nat ← match j.getObjVal? "window" with
+      | .ok .null => pure none
+      | .ok w => do pure (some (← w.getNat?))
+      | .error _ => throw "missing-window"
+    let S := sig defs window
+    let ops ← (← getArr j "ops").toList.mapM (opOfJson S cvalOfJson tasks.length)
+    let m := runHist S (init S tasks) ops
+    let s := specHist S tasks ops
+    -- the hypotheses of C30_partial, evaluated on this history (compared with the harness' own match rules)
+    let used := ops.filterMap fun op => match op with
+      | .construct i _ => some i | .tconstruct i => some i | .run i _ => some i | _ => none
+    let clash := used.any fun i => used.any fun k =>
+      match tasks[i]?, tasks[k]? with
+      | some (ci, _), some (ck, _) =>
+        match defs[ci]?, defs[ck]? with
+        | some di, some dk => di.source == dk.source && di.k != dk.k
+        | _, _ => false
+      | _, _ => false
+    return Json.mkObj [("model", Json.arr (m.map (obsToJson defs window)).toArray),
+                       ("spec", Json.arr (s.map (obsToJson defs window)).toArray),
+                       ("okHist", okHist S [] ops), ("closureClash", clash)]
   match r with
   | .ok v => v
   | .error e => err e
